@@ -388,10 +388,9 @@ fn ext_lattice(rep: &Report, tier: Tier) {
                             acc.calls += 1;
                             acc.compared += 1;
                             acc.outcome(&format!("encap_ext:{}:chain{}", out.class(), c.len()));
-                            let mut mr = must_reject_first(l, pt, p, prior.may_substitute(l));
-                            if c.is_empty() {
-                                mr = Some("no extension passed");
-                            }
+                            // an empty extension list is not among the rejections the statement lists (a first version
+                            // demanded an error for it: a false alarm on a sender that hands such a call over to encap)
+                            let mr = must_reject_first(l, pt, p, prior.may_substitute(l));
                             let ec = ErrCheck { call: "encap_ext", rep, rank: (c.len() * 10_000_000 + p * 100 + b) as u64, reg: regime(p, b) };
                             ec.check(&out, &buf, sent, &base, &enc, l, mr, &|| {
                                 (format!("encap_ext(pdu_len={}, pt={:#06x}, label={}, buffer={}, extensions={:?}) from prior state {:?}", p, pt, l.short(), b, c.iter().map(|e| e.0).collect::<Vec<_>>(), prior),
